@@ -216,7 +216,7 @@ func parserChain(p *core.Program) ([]classifyBranch, string) {
 
 func runC12(p *core.Program, r *core.Report) {
 	r.Explanation = "Decides ONE necessary condition of the property, the routing of number spellings: from the scanner's digit alphabets (the default one and the one installed after each accepted radix prefix) and the parser's ordered classification predicates, every spelling class named by the property — decimal integers, and hexadecimal integers for every prefix letter the scanner accepts — is routed, uniformly for all its members, to an integer parse whose base fits the class: a predicate whose character set meets the class's alphabet may be reached only if an earlier predicate already matches every member of the class. A spelling routed to the float parse or to the wrong base is rejected or mis-valued, whatever strconv does."
-	r.NotDecided = []string{"that strconv returns exactly the written number, and string unescaping (R12.2 not built)", "line and column of tokens (R12.3 not built)", "octal and binary prefixes (the scanner accepts them, the property does not speak of them)"}
+	r.NotDecided = []string{"that strconv returns exactly the written number; UTF-8 decoding and the byte-level assembly of the unescaped string", "octal and binary prefixes (the scanner accepts them, the property does not speak of them)"}
 	classes, msg := scannerClasses(p)
 	if classes == nil {
 		r.Unk("R12.1", "number scanner", "", msg)
@@ -295,6 +295,7 @@ func runC12(p *core.Program, r *core.Report) {
 	r.Analysed["hex_prefix_letters"] = nHex
 	r.Floor("R12.1", 3)
 	positionRules(p, r, "R12.3")
+	escapeRules(p, r)
 }
 
 func c12Controls() []core.Mutant {
@@ -306,6 +307,9 @@ func c12Controls() []core.Mutant {
 		{Name: "number scanner restores the offset without the location", File: "parser/lexer/state.go", Old: "l.loc, l.prev, l.end = loc, prev, end", New: "_, _ = loc, prev\n\t\t\tl.end = end", Rule: "R12.3", Construct: "scanNumber"},
 		{Name: "token start offset re-saved without the start location", File: "parser/lexer/lexer.go", Old: "func (l *lexer) ignore() {\n\tl.start = l.end\n\tl.startLoc = l.loc\n}", New: "func (l *lexer) ignore() {\n\tl.start = l.end\n}", Rule: "R12.3", Construct: "ignore"},
 		{Name: "REFACTORING: acceptWord restores in two statements' worth of one tuple, renamed locals", File: "parser/lexer/lexer.go", Old: "\tpos, loc, prev := l.end, l.loc, l.prev\n", New: "\tloc, prev, pos := l.loc, l.prev, l.end\n", Silent: true},
+		{Name: "\\n decoded to carriage return", File: "parser/lexer/utils.go", Old: "\tcase 'n':\n\t\tvalue = '\\n'", New: "\tcase 'n':\n\t\tvalue = '\\r'", Rule: "R12.2", Construct: "escape \\n"},
+		{Name: "\\u with two digits in the decoder", File: "parser/lexer/utils.go", Old: "\t\tcase 'u':\n\t\t\tn = 4", New: "\t\tcase 'u':\n\t\t\tn = 2", Rule: "R12.2", Construct: "numeric escape \\u"},
+		{Name: "unknown escapes pass through", File: "parser/lexer/utils.go", Old: "\tdefault:\n\t\terr = fmt.Errorf(\"unable to unescape string\")\n\t}\n\n\ttail = s", New: "\tdefault:\n\t\tvalue = rune(c)\n\t}\n\n\ttail = s", Rule: "R12.2", Construct: "unknown escapes"},
 		{Name: "hex parsed in base 10", File: "parser/parser.go", Old: "number, err := strconv.ParseInt(value, 0, 64)", New: "number, err := strconv.ParseInt(value, 10, 64)", Rule: "R12.1", Construct: "hexadecimal"},
 	}
 }
